@@ -61,3 +61,19 @@ package keeper
 //@   ensures[C10] istype(reg_impl[old(reg_n)], "keeper/component/forwarder.msgServer") && fwdSrv(reg_impl[old(reg_n)]).Authorizer == box(k, "*keeper.Keeper") && fwdSrv(reg_impl[old(reg_n)]).Forwarder == k.forwarder
 //@   ensures[C10] istype(reg_impl[old(reg_n) + 1], "keeper/component/executor.msgServer") && excSrv(reg_impl[old(reg_n) + 1]).Authorizer == box(k, "*keeper.Keeper") && excSrv(reg_impl[old(reg_n) + 1]).Executor == k.executor
 //@   ensures[C10] istype(reg_impl[old(reg_n) + 2], "keeper/component/adapter.msgServer") && adpSrv(reg_impl[old(reg_n) + 2]).Authorizer == box(k, "*keeper.Keeper") && adpSrv(reg_impl[old(reg_n) + 2]).Adapter == k.adapter
+
+// Query servers (C13, C08, C09, C18): the query services are registered with the query servers of this
+// keeper's own components (order: module, forwarder, executor, adapter, dispatcher) - so the statistics,
+// pause-set and parameter queries read the stores the transfers and the message servers write.
+//@ macro fwdQ(x) = cast(x, "keeper/component/forwarder.queryServer")
+//@ macro excQ(x) = cast(x, "keeper/component/executor.queryServer")
+//@ macro adpQ(x) = cast(x, "keeper/component/adapter.queryServer")
+//@ macro dspQ(x) = cast(x, "keeper/component/dispatcher.queryServer")
+//@ func RegisterQueryServers(cfg, k)
+//@   requires[inv] k != nil
+//@   modifies reg_n, reg_impl
+//@   ensures[C13,C08,C09,C18] reg_n == old(reg_n) + 5
+//@   ensures[C08] istype(reg_impl[old(reg_n) + 1], "keeper/component/forwarder.queryServer") && fwdQ(reg_impl[old(reg_n) + 1]).Forwarder == k.forwarder
+//@   ensures[C09] istype(reg_impl[old(reg_n) + 2], "keeper/component/executor.queryServer") && excQ(reg_impl[old(reg_n) + 2]).Executor == k.executor
+//@   ensures[C18] istype(reg_impl[old(reg_n) + 3], "keeper/component/adapter.queryServer") && adpQ(reg_impl[old(reg_n) + 3]).Adapter == k.adapter
+//@   ensures[C13] istype(reg_impl[old(reg_n) + 4], "keeper/component/dispatcher.queryServer") && dspQ(reg_impl[old(reg_n) + 4]).Dispatcher == k.dispatcher
